@@ -31,6 +31,7 @@ type c04World struct {
 	pfd   int
 	nest  int
 	reads int
+	running [2]int // callbacks of timer i currently on the stack (any depth)
 }
 
 func (w *c04World) cbFor(i, gen int) func() {
@@ -52,7 +53,9 @@ func (w *c04World) cbFor(i, gen int) func() {
 		}
 		tm.runs++
 		tm.lastRun = now
+		w.running[i]++
 		w.nested(i)
+		w.running[i]--
 	}
 }
 
@@ -118,8 +121,8 @@ func (w *c04World) closeT(i int) {
 	}
 }
 
-// action performs one step. self is the timer whose callback is running (-1: none): scheduling a
-// timer from inside its own callback is left out (whether a running repeating timer "holds a
+// action performs one step. Scheduling a timer while one of ITS OWN callbacks is on the stack — directly
+// or through another timer's immediate callback nested inside it — is left out (whether a running repeating timer "holds a
 // schedule" during its callback is not defined by the property).
 func (w *c04World) action(top bool, self int) {
 	n := 8
@@ -128,15 +131,15 @@ func (w *c04World) action(top bool, self int) {
 	}
 	switch vf.Choice("action", n) {
 	case 0:
-		if self != 0 {
+		if w.running[0] == 0 {
 			w.schedule(0, false)
 		}
 	case 1:
-		if self != 1 {
+		if w.running[1] == 0 {
 			w.schedule(1, false)
 		}
 	case 2:
-		if self != 0 {
+		if w.running[0] == 0 {
 			w.schedule(0, true)
 		}
 	case 3:
@@ -149,7 +152,7 @@ func (w *c04World) action(top bool, self int) {
 		// nothing
 	case 7:
 		// cancel and re-arm in one go
-		if self != 0 {
+		if w.running[0] == 0 {
 			w.cancel(0)
 			w.schedule(0, false)
 		}
@@ -203,7 +206,7 @@ func VerifC04_History() {
 	w.pipe = newFile(w.ioc, w.pfd)
 	w.ioc.Dispatched = MaxCallbackDispatch // the pipe read is always deferred, so its callback runs from a poll batch
 	w.nest = vf.Bound("nested-actions", 1, 2)
-	K := vf.Bound("k", 3, 5)
+	K := vf.Bound("k", 3, 4)
 	vf.Unwind(16)
 	for s := 0; s < K; s++ {
 		w.action(true, -1)
